@@ -506,6 +506,7 @@ class Evaluator:
         self.inlined: List[str] = []
         self.lambdas: Dict[str, Tuple[ast.Lambda, Dict[str, Term], "Frame"]] = {}
         self.localdefs: Dict[str, ast.FunctionDef] = {}
+        self._via_callable = False
         self.inline_class_consts = False   # opt-in: read ``self.X`` as the class-level constant X of a plain class
 
     # -- typing -----------------------------------------------------------------------
@@ -1009,6 +1010,27 @@ class Evaluator:
             return ("list", tuple(subst(elt, {b: item}) for item in gens[0][0][1]))
         return ("comp", kind, elt, tuple(gens))
 
+    def _single_ref(self, f: FunctionInfo) -> bool:
+        """a module-level function that is mentioned at exactly one place in the package (its one caller): a piece split off that caller"""
+        if f.kind != "function" or f.cls is not None or f.name.startswith("__"):
+            return False
+        cache = self.model.__dict__.setdefault("_name_refs", None)
+        if cache is None:
+            cache = {}
+            for m in self.model.modules.values():
+                for n in ast.walk(m.tree):
+                    if isinstance(n, ast.Name) and isinstance(n.ctx, ast.Load):
+                        cache[n.id] = cache.get(n.id, 0) + 1
+                    elif isinstance(n, ast.Attribute) and isinstance(n.ctx, ast.Load):
+                        cache[n.attr] = cache.get(n.attr, 0) + 1
+                    elif isinstance(n, ast.alias):
+                        nm = (n.asname or n.name).split(".")[-1]
+                        cache["import:" + nm] = cache.get("import:" + nm, 0) + 1
+            self.model._name_refs = cache
+        if len([x for x in self.model.all_functions() if x.name == f.name]) != 1:
+            return False
+        return cache.get(f.name, 0) == 1 and cache.get("import:" + f.name, 0) == 0
+
     def _returns_object(self, t: Term) -> bool:
         """a call of a package function whose declared result is a class of the package (not Optional): never None"""
         if t[0] == "call" and isinstance(t[1], tuple) and t[1][0] == "fn":
@@ -1404,6 +1426,25 @@ class Evaluator:
             for part in f[2][0][1].split("."):
                 v = self.attr(v, part, fr)
             return v
+        if f[0] == "call" and (f[1] == "partial" or f[1] == ("global", "partial") or (isinstance(f[1], tuple) and f[1][-1:] == ("partial",))) and f[2]:
+            # functools.partial(g, *a, **k)(x) is g(*a, x, **k)
+            base, pre, kw = f[2][0], list(f[2][1:]), list(f[3])
+            if base[0] == "fn":
+                cands = [x for x in self.model.all_functions() if x.qualname == base[1]]
+                if len(cands) == 1 and cands[0].kind in ("function", "staticmethod"):
+                    # a function that is only ever used through this one partial is a piece of its user: read as a value when pure
+                    self._via_callable = True
+                    try:
+                        return self.call_function(cands[0], None, None, pre + [arg], kw, fr)
+                    finally:
+                        self._via_callable = False
+            if base[0] == "cls":
+                c = self.model.maybe_cls(base[1])
+                if c is not None:
+                    return self.construct(c, pre + [arg], kw, fr)
+            if base[0] == "attr" and base[2] == "contains" and base[1] in (("global", "operator"),) and len(pre) == 1 and not kw:
+                return self.compare("in", arg, pre[0], fr)
+            return None
         if f[0] == "global" and f[1] in ("float", "int", "str", "bool", "abs", "len", "type", "repr", "hash"):
             n = f[1]
             if n in ("int", "float"):
@@ -1545,7 +1586,7 @@ class Evaluator:
             canon = ("call", fref, (), tuple(sorted(shown.items())))
         else:
             canon = ("call", fref, tuple(args), tuple(kwargs))
-        if ((self.inline_methods or is_private_helper(f)) and bound is not None and fr.depth < self.max_depth and f.qualname not in self.opaque
+        if ((self.inline_methods or is_private_helper(f) or (self._via_callable and self._single_ref(f))) and bound is not None and fr.depth < self.max_depth and f.qualname not in self.opaque
                 and "abstractmethod" not in f.decorators and not _has_loop(f.node)
                 and not any(d in ("contextlib.contextmanager", "contextmanager") for d in f.decorators)):
             try:
